@@ -177,6 +177,8 @@ Next == \E c \in Cs :
           \/ Do("front", c, 0, 0, 0) \/ Do("back", c, 0, 0, 0) \/ Do("assignself", c, 0, 0, 0) \/ Do("bulkself", c, 0, 0, 0)
 Spec == Init /\ [][Next]_vars
 Bound == \A c \in 1..NC : Len(st[c]) <= MaxLen
+\* keys and values only (cfg: VIEW ViewKV): the graphs dumped for the C04 / C05 replay need the operation sequences, not the ids
+ViewKV == [c \in 1..NC |-> [i \in 1..Len(st[c]) |-> <<st[c][i].k, st[c][i].v>>]]
 
 \* ---- properties of the reference
 SortedSeq(q) == \A i \in 1..Len(q) - 1 : q[i].k <= q[i + 1].k
